@@ -93,8 +93,11 @@ class Py(CodeWriter):
             while isinstance(b, Nodes.TemplatedTypeNode):
                 dims = list(b.positional_args) + dims
                 b = b.base_type_node
-            if dims and not any(isinstance(x, ExprNodes.SliceNode)
-                                for x in dims):
+            base_name = getattr(b, 'name', None)
+            if dims and base_name in ('double', 'float', 'int', 'long',
+                                      'unsigned', 'short', 'char') and \
+                    not any(isinstance(x, ExprNodes.SliceNode)
+                            for x in dims):
                 for d in node.declarators:
                     if isinstance(d, Nodes.CNameDeclaratorNode) and \
                             d.default is None:
